@@ -28,7 +28,7 @@ func defC07(mode int, late bool) *ph.Def {
 			{Name: "o", Kind: ph.StrOpt, DefS: "OD"},    // one-letter optional-value option: `--o v` takes v in every mode
 			{Name: "l", Kind: ph.StrS, Min: 1, Max: 1},  // string list: an attached `a,b` is one element however it is spelled
 		},
-		Cmds: []*ph.CmdDef{{Name: "c", Opts: []ph.OptDef{{Name: "d", Kind: ph.Bool}}}},
+		Cmds: []*ph.CmdDef{{Name: "c", Opts: []ph.OptDef{{Name: "d", Kind: ph.Bool}, {Name: "e", Kind: ph.Incr}, {Name: "f", Kind: ph.Str, DefS: "F"}}}}, // options only the command has: bundles of them behind the command name
 	}}
 }
 
@@ -175,6 +175,23 @@ func judgeC07(pc *parserCase, verbose bool) []string {
 		letters = append(letters, string(r))
 	}
 	rew, ok := c07Rewrite(pc.Def.Mode, letters, attach)
+	if !ok && pc.Def.Mode == 1 && idx > 0 && pc.Argv[0] == "c" {
+		// behind the command name the command's own options d, e (flags) and f are declared too
+		ok = true
+		rew = nil
+		for i, l := range letters {
+			known := c07Declared[l] || l == "d" || l == "e" || l == "f"
+			flag := c07Flag[l] || l == "d" || l == "e"
+			if !known || (i < len(letters)-1 && !flag) {
+				ok = false
+			}
+			if i == len(letters)-1 && attach != nil {
+				rew = append(rew, "--"+l+"="+*attach)
+			} else {
+				rew = append(rew, "--"+l)
+			}
+		}
+	}
 	if !ok {
 		return nil
 	}
@@ -241,10 +258,10 @@ func init() {
 	parserJudges["C07"] = judgeC07
 	register(&Check{
 		ID:        "C07",
-		QuickSecs: 300, ThoroSecs: 900,
+		QuickSecs: 900, ThoroSecs: 900,
 		Rule: "input-space exploration, metamorphic: every single-dash token -LETTERS[=v] with LETTERS a string of length 1..Ll over 11 letters (two flags, increment, string, int, a multibyte valued option, a multibyte flag, an undeclared letter, a digit that is a declared flag, a string list, a blank) and v in {none, x, 5, =y, `a b`, empty, `a,b`, a value with a line break} " +
 			"in 8 contexts (alone, followed by a value, followed by an option, after a positional, after a command, after a command and followed by a value, right behind an optional numeric option, right behind a numeric slice with room) x 3 modes x SetMode before/after the commands are declared; the complete outcome of Parse on the token is compared with Parse on its documented rewriting " +
-			"(restricted to the statement's preconditions in Bundling mode); plus every long-only argv of length <= 3 over 15 tokens (one-letter abbreviations of long names and a one-letter optional-value option included) compared across the three modes; distinct_nontrivial = distinct (definition, argv) pairs compared",
+			"(restricted to the statement's preconditions in Bundling mode); bundles of up to three letters over a command's own and inherited options behind the command name (Bundling); plus every long-only argv of length <= 3 over 15 tokens (one-letter abbreviations of long names and a one-letter optional-value option included) compared across the three modes; distinct_nontrivial = distinct (definition, argv) pairs compared",
 		Assume: []string{"letters outside the alphabet and tokens longer than Ll are not covered"},
 		Run: func(c *RunCtx) {
 			ll := 4
@@ -258,7 +275,71 @@ func init() {
 			units := len(c07Letters) + len(longAlpha)
 			for {
 				u := c.claim()
-				if u >= units {
+				if u == units {
+					// Bundling mode, behind the command name: bundles of the command's own flags (d, e), an inherited flag (a)
+					// and the command's valued option (f) against one token per letter
+					cl := []string{"a", "d", "e", "f"}
+					cflag := map[string]bool{"a": true, "d": true, "e": true}
+					var bundles [][]string
+					for _, x := range cl {
+						for _, y := range cl {
+							bundles = append(bundles, []string{x, y})
+							for _, z := range cl {
+								bundles = append(bundles, []string{x, y, z})
+							}
+						}
+					}
+					for _, letters := range bundles {
+						okPre := true
+						for _, l := range letters[:len(letters)-1] {
+							if !cflag[l] {
+								okPre = false
+							}
+						}
+						if !okPre {
+							continue
+						}
+						for _, att := range []*string{nil, sp("x")} {
+							tok := "-" + strings.Join(letters, "")
+							var rew []string
+							for i, l := range letters {
+								if i == len(letters)-1 && att != nil {
+									rew = append(rew, "--"+l+"="+*att)
+								} else {
+									rew = append(rew, "--"+l)
+								}
+							}
+							if att != nil {
+								tok += "=" + *att
+							}
+							for _, late := range []bool{false, true} {
+								def := defC07(1, late)
+								for _, tail := range [][]string{nil, {"val"}, {"-d"}} {
+									argv := append(append([]string{"c"}, tok), tail...)
+									argv2 := append(append([]string{"c"}, rew...), tail...)
+									p1 := ph.Build(def, nil)
+									o1 := p1.Run(argv, false)
+									p1.Close()
+									p2 := ph.Build(def, nil)
+									o2 := p2.Run(argv2, false)
+									p2.Close()
+									res.States++
+									res.Evaluations++
+									res.Traces += 2
+									res.count("bundles_of_command_level_options_compared", 1)
+									if o1.Panic != "" || o2.Panic != "" || o1.Hang || o2.Hang {
+										continue
+									}
+									if msgs := c07Equiv(o1, o2, tok, rew); len(msgs) > 0 {
+										res.violate(Violation{Prop: "C07", Msg: fmt.Sprintf("%s  [%s argv=%q]", msgs[0], def.ConfigString(), argv), Case: newCase("C07", def, nil, argv, false), Weight: len(letters)*10 + len(tail), Test: goTest(def, nil, argv, msgs[0])})
+									}
+								}
+							}
+						}
+					}
+					continue
+				}
+				if u > units {
 					break
 				}
 				if u >= len(c07Letters) {
@@ -351,7 +432,7 @@ func init() {
 			res.Distinct = res.Counters["single_dash_tokens_compared_with_rewriting"] + res.Counters["long_only_argv_compared_across_modes"]
 		},
 		Replay:     replayParser,
-		GateCounts: []string{"single_dash_tokens_compared_with_rewriting", "bundles_of_two_or_more_letters_compared", "long_only_argv_compared_across_modes"},
+		GateCounts: []string{"single_dash_tokens_compared_with_rewriting", "bundles_of_two_or_more_letters_compared", "long_only_argv_compared_across_modes", "bundles_of_command_level_options_compared"},
 	})
 }
 
